@@ -11,7 +11,7 @@ try:
     s = open(p).read()
     assert s.count(old) >= 1, f'pattern not found in {rel}'
     open(p, 'w').write(s.replace(old, new, 1))
-    env = dict(os.environ, VERIF_REPO_SRC=d + '/src', VERIF_KEEP_EVIDENCE='1')
+    env = dict(os.environ, VERIF_REPO_SRC=d + '/src', VERIF_KEEP_EVIDENCE='1', VERIF_BUDGET_S=os.environ.get('VERIF_BUDGET_S', '420'))
     r = subprocess.run(['/verif/check', pid, '--tier', tier], capture_output=True, text=True, env=env)
     lines = [l for l in r.stdout.splitlines() if l.startswith(('VIOLATION', 'UNDECIDED', 'CHECKER', 'KNOWN', '  obligation', '['))]
     print(f'exit={r.returncode}  {old!r} -> {new!r}')
